@@ -1,6 +1,7 @@
 import EinoV.Oracle.C20Parse
 import EinoV.Expected.C20
 import EinoV.Model.C07
+import EinoV.Model.C07Types
 
 namespace EinoV.Oracle.C07
 open Lean EinoV EinoV.Build EinoV.C07 EinoV.Oracle.C20Parse
@@ -21,11 +22,40 @@ def runStr : RunRes → String
   | .merge => "merge"
   | .badPick => "badPick"
 
+def asgStr : Asg → String
+  | .must => "must"
+  | .may => "may"
+  | .mustNot => "mustNot"
+
+/-- query {"kind":"universe","names":[…],"impl":[…]}: the model's three tables over every
+    ordered pair (a, b) of the listed types, row-major: `check` = eino's rule
+    (checkAssignable a→b), `go` = Go's assignability (goAssignable menuUniv), `dyn` = does the
+    assertion `v.(b)` succeed for a value of the concrete type a ("-" when a is an interface);
+    and `named`: per listed type, is it a named type ("-" for interfaces). -/
+def handleUniverse (c : Json) : JE Json := do
+  let names ← J.strList c "names"
+  let tys ← names.mapM parseTy
+  let im ← parseImpl c
+  let pairs := tys.flatMap fun a => tys.map fun b => (a, b)
+  let dynS : Ty × Ty → String := fun p =>
+    match p.1 with
+    | .conc a => if dynOk im a p.2 then "y" else "n"
+    | _ => "-"
+  let namedS : Ty → String
+    | .conc a => if (menuUniv a).named then "y" else "n"
+    | _ => "-"
+  pure <| Json.mkObj [
+    ("check", J.mkStrs (pairs.map fun p => asgStr (checkAssignable im (some p.1) (some p.2)))),
+    ("go", J.mkStrs (pairs.map fun p => if goAssignable menuUniv im p.1 p.2 then "y" else "n")),
+    ("dyn", J.mkStrs (pairs.map dynS)),
+    ("named", J.mkStrs (tys.map namedS))]
+
 /-- case: the build case of C20 plus, per node op, "dyn" (dynamic type the lambda returns),
     per branch op "pick" (end node the condition returns), and "runs": the dynamic types of
     the START values.  Answer: outcome of every call and, if the last call is a successful
     Compile, the result class of every run of that runnable. -/
 def handle (c : Json) : JE Json := do
+  if J.strD c "kind" "" == "universe" then return (← handleUniverse c)
   let cs ← parseCase c
   let f := Expected.C20.facts
   let (_, outs, rs) := run f cs.im Ord.id cs.b0 cs.ops
